@@ -1,16 +1,28 @@
 #!/bin/bash
 # usage: tools/try_mutation.sh <patch.diff> <Cxx> [Cyy ...]
-# Applies the patch to a scratch worktree of /repo's HEAD (outside /repo and /verif), runs the quick checks
-# against it (VERIF_REPO), writing evidence/replays to a scratch directory, then removes the worktree.
+# Applies the patch to a scratch worktree of /repo's HEAD (outside /repo and /verif) and runs the quick checks
+# against it (VERIF_REPO) FROM A PRIVATE COPY OF /verif (so that the regenerated Gen/*.v, the Coq build and the
+# evidence of the main tree are never touched and development can go on meanwhile); removes both afterwards.
+# The copy is the working tree with its build artefacts when it has no uncommitted changes to the machinery,
+# otherwise the committed state (git archive HEAD; rebuilt from scratch).
 patch="$(realpath "$1")"; shift
 tag="$(basename "$(dirname "$patch")")_$$"
 wt="/tmp/mut_$tag"
+vcopy="/tmp/mutv_$tag"
 cd /verif
 git -C /repo worktree add --detach "$wt" HEAD -q || exit 2
-trap 'git -C /repo worktree remove --force "$wt" 2>/dev/null; rm -rf "/tmp/mutev_$tag"' EXIT
+trap 'git -C /repo worktree remove --force "$wt" 2>/dev/null; rm -rf "$vcopy"' EXIT
 git -C "$wt" apply "$patch" || { echo "PATCH DOES NOT APPLY"; exit 2; }
+mkdir -p "$vcopy"
+if git -C /verif diff --quiet HEAD -- coq harness ocaml translator bin KNOWN_FINDINGS.json 2>/dev/null; then
+  rsync -a --exclude .git --exclude .cache --exclude evidence --exclude replays --exclude seeded /verif/ "$vcopy/"
+else
+  git -C /verif archive HEAD | tar -x -C "$vcopy"
+  (cd "$vcopy" && VERIF_REPO="$wt" ./bin/setup >/dev/null 2>&1)
+fi
+mkdir -p "$vcopy/evidence" "$vcopy/replays"
 for p in "$@"; do
   echo "=== $p under $(basename $(dirname $patch))"
-  VERIF_REPO="$wt" VERIF_EVIDENCE_DIR="/tmp/mutev_$tag/evidence" VERIF_REPLAY_DIR="/tmp/mutev_$tag/replays" ./bin/check "$p" --tier quick 2>&1 \
+  (cd "$vcopy" && VERIF_REPO="$wt" ./bin/check "$p" --tier quick 2>&1) \
      | grep -E "VIOLATION|KNOWN-FINDING|tier=|violation x|proof failure|mismatch" | tail -6 | cut -c1-400
 done
